@@ -933,6 +933,9 @@ func main() {
 	header := "From Coq Require Import String List NArith ZArith Uint63.\nFrom FFS Require Import Base.Bytes Base.Lit Keystore.Json Keystore.RunC07.\nImport ListNotations.\nOpen Scope string_scope. Open Scope N_scope."
 	st := cv.NewStats()
 	shards := 16
+	if *tier == "thorough" {
+		shards = 64 // smaller files: the evaluator's memory grows with the size of a case file
+	}
 	if *replay != "" {
 		shards = 1
 	}
@@ -1026,7 +1029,7 @@ func main() {
 	}
 	nRandNew := 10
 	if thorough {
-		nRandNew = 150
+		nRandNew = 80
 	}
 	for i := 0; i < nRandNew; i++ {
 		v := r.Intn(4)
@@ -1128,7 +1131,7 @@ func main() {
 	}
 	nSweep := 3
 	if thorough {
-		nSweep = len(cheap)
+		nSweep = 5
 	}
 	for bi, b := range cheap {
 		if bi >= nSweep {
@@ -1198,6 +1201,10 @@ func main() {
 		rep(`"`+mac+`"`, `"`+mac[:62]+`"`, "mac-truncated")
 		rep(`"`+mac+`"`, `"`+mac+`00"`, "mac-extended")
 		rep(`"`+mac+`"`, `""`, "mac-empty")
+		ivh := hex.EncodeToString(d.iv)
+		rep(`"iv":"`+ivh+`"`, `"iv":"`+ivh[:30]+`"`, "iv-truncated")
+		rep(`"iv":"`+ivh+`"`, `"iv":"`+ivh+`00"`, "iv-extended")
+		rep(`"iv":"`+ivh+`"`, `"iv":""`, "iv-empty")
 		rep(`"hmac-sha256"`, `"hmac-sha512"`, "prf-foreign")
 		rep(`"kdf":"scrypt"`, `"kdf":"pbkdf2"`, "kdf-swapped")
 		rep(`"kdf":"pbkdf2"`, `"kdf":"scrypt"`, "kdf-swapped")
